@@ -38,7 +38,7 @@ func main() {
 	if len(os.Args) > 1 {
 		rounds, _ = strconv.Atoi(os.Args[1])
 	}
-	envs := []c08lib.Env{c08lib.EnvA(), c08lib.EnvB()}
+	envs := []interface{}{c08lib.EnvA(), c08lib.EnvB(), c08lib.EnvP()}
 	// solo results
 	solo := make([][]string, len(envs))
 	ref, err := c08lib.CompileAll(c08lib.Env{})
@@ -75,7 +75,7 @@ func main() {
 							mu.Lock()
 							mismatch++
 							if mismatch < 5 {
-								fmt.Printf("RACER-MISMATCH program %q env %d: got %s, solo %s\n", c08lib.Sources[pi], ei, got, solo[ei][pi])
+								fmt.Printf("RACER-MISMATCH program %q env %d: got %s, solo %s\n", c08lib.Source(pi), ei, got, solo[ei][pi])
 							}
 							mu.Unlock()
 						}
